@@ -149,6 +149,7 @@ def gen_plan(seed, index, tier):
         if rng.random() < 0.35:
             plan["data"][1] = _derived_dataset(rng, plan["data"][0], 0)
     elif cls in ("EG", "GS"):
+        base = rng.choice(["exact", "lr", "nested"])
         plan["cfg"] = {"base": base, "moment": rng.choice(["DP", "EO", "TPR", "ERP"]), "bound": rng.choice([0.01, 0.05])}
         if cls == "EG":
             plan["cfg"].update(eps=rng.choice([0.05, 0.1]), max_iter=rng.choice([3, 6, 10]),
@@ -200,6 +201,9 @@ def _base_learner(kind, for_to=False, stub_method="predict_proba"):
         from sklearn.linear_model import LogisticRegression
 
         return LogisticRegression(max_iter=200)
+    if kind == "nested" and not for_to:
+        # composite base learner whose fit trains a nested learner in place (Pipeline-like)
+        return seams.NestedPeer(seams.ExactClassifier(col=0, log_payload=False))
     return seams.ScoreStub(col=0, method=stub_method) if for_to else seams.ExactClassifier(col=0, log_payload=False)
 
 
@@ -440,7 +444,17 @@ def first_diff(a, b):
 
 
 def params_snapshot(est):
-    return dict(est.get_params(deep=False))
+    snap = dict(est.get_params(deep=False))
+    # the wrapped base learner is the user's object: fit must train copies of it, never the object itself
+    base = snap.get("estimator")
+    if base is not None:
+        try:
+            import pickle
+
+            snap["estimator(state)"] = pickle.dumps(base)
+        except Exception:  # noqa: BLE001 - unpicklable learner: identity check only
+            pass
+    return snap
 
 
 def params_changed(before, after):
@@ -451,6 +465,8 @@ def params_changed(before, after):
             continue
         simple = (int, float, str, bool, type(None))
         if isinstance(v, simple) and isinstance(w, simple) and type(v) is type(w) and v == w:
+            continue
+        if isinstance(v, bytes) and isinstance(w, bytes) and v == w:
             continue
         if isinstance(v, (list, tuple)) and isinstance(w, type(v)) and v == w and all(isinstance(x, simple) for x in v):
             continue
